@@ -1522,20 +1522,6 @@ class VacancyMediated(object):
             # - biasSvec[sv]
         biasVvec_om2 = -biasSvec
 
-        # 4c. origin state corrections for solute: (corrections for vacancy appear below)
-        # these corrections are due to the null space for the vacancy without solute
-        if len(self.OSindices) > 0:
-            # need to multiply by sqrt(probV) first
-            OSprobV = self.OSfolddown*probVsqrt  # proper null space projection
-            biasSbar = np.dot(OSprobV, biasSvec)
-            om2bar = np.dot(OSprobV, np.dot(om2, OSprobV.T))  # OS x OS
-            etaSbar = np.dot(pinv(om2bar), biasSbar)
-            dDss = np.dot(np.dot(self.vkinetic.outer[:, :, self.OSindices, :, ][:, :, :, self.OSindices],
-                                 etaSbar), biasSbar) / self.N
-            D0ss += dDss
-            D0sv -= dDss
-            biasSvec -= np.dot(om2, np.dot(OSprobV.T, etaSbar))
-
         # 5. compute Green function:
         G0 = np.dot(self.GFexpansion, GF)
         # Note: we first do this *just* with omega1, then ... with omega2, depending on how it behaves
@@ -1585,6 +1571,24 @@ class VacancyMediated(object):
             G = np.dot(np.linalg.inv(np.eye(self.vkinetic.Nvstars) + np.dot(G, om2)), G)
             Gfull = G
 
+        # 5b. origin state correction of the Green function (needed when the sites have a non-empty vector basis).
+        # Far from the solute, a corrector field tends to a combination of the null vectors n=OSprobV of the bare
+        # (solute-free) vacancy rate matrix: sqrt(probV) times the site basis vector of the solute site, one per origin
+        # state vector star. Its coefficients follow from requiring that no net flux leaves to infinity for any
+        # solute site; with nu = G0^-1 n (the residual of n on the boundary of the kinetic shell) this is
+        # G -> G + G nu (n nu - nu^T G nu)^-1 nu^T G, the limit of G0 -> G0 + kappa n^T n as kappa -> infinity.
+        if len(self.OSindices) > 0:
+            OSprobV = self.OSfolddown*probVsqrt  # proper null space projection
+            # global translations (vectors invariant under the full point group) are null vectors of the full rate
+            # matrix as well; leave them out of the coefficients (the columns of U kept span their complement)
+            polar = sum(g.cartrot for g in self.crys.G) / len(self.crys.G)
+            U, sv, VT = np.linalg.svd(np.dot(np.tensordot(self.OS_VB, np.sqrt(probSsites), axes=(1, 0)), polar))
+            nvec = np.dot(OSprobV.T, U[:, np.sum(sv > 1e-8):])
+            if nvec.shape[1] > 0:
+                Gnu = np.dot(Gfull, np.linalg.solve(G0, nvec))
+                dG = np.dot(Gnu, np.linalg.solve(np.dot(nvec.T, np.linalg.solve(G0, nvec - Gnu)), Gnu.T))
+                G, Gfull = G + dG, Gfull + dG
+
         # 6. Compute bias contributions to Onsager coefficients
         # 6a. add in the om2 contribution to biasVvec:
         biasVvec += biasVvec_om2
@@ -1597,22 +1601,23 @@ class VacancyMediated(object):
         L1sv = np.dot(outer_etaSvec, biasVvec) / self.N
         L1vv = np.dot(outer_etaVvec, biasVvec) / self.N
 
-        # 6c. origin state corrections for vacancy:
+        # 6c. origin state corrections for vacancy: the vacancy corrector is eta0 (bare, periodic) + G*(db - dom*eta0)
         if len(self.OSindices) > 0:
             etaV0 = -np.tensordot(self.OS_VB, etav, axes=((1, 2), (0, 1))) * np.sqrt(self.N)
             outer_etaV0 = np.dot(self.vkinetic.outer[:, :, self.OSindices, :][:, :, :, self.OSindices], etaV0)
             dom = delta_om + om2  # sum of the terms
-            # dgd = -dom + np.dot(dom, np.dot(G, dom))  # delta_g = g0*dgd*g0
-            dgd = -dom + np.dot(dom, np.dot(Gfull, dom))  # delta_g = g0*dgd*g0
-            G0db = np.dot(G0, biasVvec)  # G0*db
-            # 2 eta0*db + 2 eta0*dgd*G0*db + eta0*dgd*eta0  (domega = delta_om + om2)
+            dgd = -dom + np.dot(dom, np.dot(Gfull, dom))
+            # eta0 on a pair state carries the square root of the solute site probability as well
+            probSsqrt = np.array([np.sqrt(probS[self.kineticsvWyckoff[starindex][0]]) for starindex in self.vstar2kin])
+            OSVprobS = self.OSVfolddown*probSsqrt
+            # eta0*(bS - dom*G*bS) (index order of Lsv: vacancy, solute)
+            L1sv += np.dot(outer_etaV0, np.dot(OSVprobS, biasSvec - np.dot(dom, np.dot(Gfull, biasSvec)))).T / self.N
+            # eta0*(db - dom*G*db) + transpose + eta0*dgd*eta0  (domega = delta_om + om2)
             # - etaV0*biasV0 (correction due to removing states)
-            L1vv += np.dot(outer_etaV0,
-                           2 * np.dot(self.OSVfolddown, biasVvec)
-                           + 2 * np.dot(self.OSVfolddown, np.dot(dgd, G0db))
-                           + np.dot(np.dot(self.OSVfolddown, np.dot(dgd, self.OSVfolddown.T)), etaV0)
-                           - biasVvec[self.OSindices]
-                           ) / self.N
+            L1vv_cross = np.dot(outer_etaV0, np.dot(OSVprobS, biasVvec - np.dot(dom, np.dot(Gfull, biasVvec)))
+                                - 0.5 * (probSsqrt*biasVvec)[self.OSindices])
+            L1vv += (L1vv_cross + L1vv_cross.T +
+                     np.dot(outer_etaV0, np.dot(np.dot(OSVprobS, np.dot(dgd, OSVprobS.T)), etaV0))) / self.N
 
         return L0vv.copy(), D0ss + L1ss, D0sv + L1sv, D0vv + D2vv + L1vv
 
